@@ -1,0 +1,31 @@
+//go:build verif
+
+// Contracts for the deductive verification in /verif (comment-only; compiled code is unaffected).
+package lister
+
+// the name shown for an account: "wallet/account" when the account knows its wallet
+//@ spec shown(a any) string = if implements(a, "e2wtypes.AccountWalletProvider") then nameOf(walletOf(a)) + "/" + nameOf(a) else nameOf(a)
+
+// Every account in the response is one of the accounts the lister returned in this request, with its own name and
+// public key; nothing is returned unless the lister succeeded.
+//@ func (*Handler).ListAccounts
+//@ requires h != nil
+//@ requires [unlocked] !prelocked && (forall k [48]byte :: !held[k])
+//@ modifies checkedset, deniedset, tokroot, db, held, prelocked, listing
+//@ ensures [nil] req == nil ==> result0 == nil && result1 != nil
+//@ ensures [resp] req != nil ==> result0 != nil && result1 == nil
+//@ ensures [closed] req != nil && result0.State != pb.ResponseState_SUCCEEDED ==> len(result0.Accounts) == 0 && len(result0.DistributedAccounts) == 0
+//@ ensures [own] req != nil ==> (forall k int :: 0 <= k && k < len(result0.Accounts) ==> result0.Accounts[k] != nil && (exists a any :: a in listing && result0.Accounts[k].Name == shown(a) && bytes(result0.Accounts[k].PublicKey) == pkOfAcc(a)))
+//@ ensures [own-dist] req != nil ==> (forall k int :: 0 <= k && k < len(result0.DistributedAccounts) ==> result0.DistributedAccounts[k] != nil && (exists a any :: a in listing && result0.DistributedAccounts[k].Name == shown(a) && bytes(result0.DistributedAccounts[k].PublicKey) == pkOfAcc(a)))
+//@ loop #1
+//@ invariant [range] 0 <= _n && _n <= len(accounts) && res != nil && fresh(res) && res.Accounts != nil && fresh(res.Accounts) && res.DistributedAccounts != nil && fresh(res.DistributedAccounts)
+//@ invariant [listed] forall j int :: 0 <= j && j < len(accounts) ==> accounts[j] != nil && accounts[j] in listing
+//@ invariant [own] forall k int :: 0 <= k && k < len(res.Accounts) ==> res.Accounts[k] != nil && fresh(res.Accounts[k]) && allocated(res.Accounts[k]) && allocated(res.Accounts[k].PublicKey) && (exists a any :: a in listing && res.Accounts[k].Name == shown(a) && bytes(res.Accounts[k].PublicKey) == pkOfAcc(a))
+//@ invariant [own-dist] forall k int :: 0 <= k && k < len(res.DistributedAccounts) ==> res.DistributedAccounts[k] != nil && fresh(res.DistributedAccounts[k]) && allocated(res.DistributedAccounts[k]) && allocated(res.DistributedAccounts[k].PublicKey) && (exists a any :: a in listing && res.DistributedAccounts[k].Name == shown(a) && bytes(res.DistributedAccounts[k].PublicKey) == pkOfAcc(a))
+//@ loop #2
+//@ invariant [ctx] 0 <= _n1 && _n1 < len(accounts) && pbAccount != nil && fresh(pbAccount) && res != nil && fresh(res) && res.Accounts != nil && fresh(res.Accounts) && res.DistributedAccounts != nil && fresh(res.DistributedAccounts) && pbAccount.Participants != nil && fresh(pbAccount.Participants)
+//@ invariant [cur] account == accounts[_n1] && account in listing && pbAccount.Name == shown(account) && bytes(pbAccount.PublicKey) == pkOfAcc(account) && allocated(pbAccount.PublicKey)
+//@ invariant [distinct] forall k int :: 0 <= k && k < len(res.DistributedAccounts) ==> res.DistributedAccounts[k] != pbAccount
+//@ invariant [listed] forall j int :: 0 <= j && j < len(accounts) ==> accounts[j] != nil && accounts[j] in listing
+//@ invariant [own] forall k int :: 0 <= k && k < len(res.Accounts) ==> res.Accounts[k] != nil && fresh(res.Accounts[k]) && allocated(res.Accounts[k]) && allocated(res.Accounts[k].PublicKey) && (exists a any :: a in listing && res.Accounts[k].Name == shown(a) && bytes(res.Accounts[k].PublicKey) == pkOfAcc(a))
+//@ invariant [own-dist] forall k int :: 0 <= k && k < len(res.DistributedAccounts) ==> res.DistributedAccounts[k] != nil && fresh(res.DistributedAccounts[k]) && allocated(res.DistributedAccounts[k]) && allocated(res.DistributedAccounts[k].PublicKey) && (exists a any :: a in listing && res.DistributedAccounts[k].Name == shown(a) && bytes(res.DistributedAccounts[k].PublicKey) == pkOfAcc(a))
